@@ -298,7 +298,7 @@ func init() {
 		if err != nil {
 			return VErr(errCode(err))
 		}
-		v := scteView(s)
+		v := twice("SCTE35 getters", func() Val { return scteView(s) })
 		return VOk(VL(v, VBool(bytes.Equal(in, a[0].B))))
 	})
 	register("scte.reencode", func(a []Val) Val {
@@ -307,7 +307,8 @@ func init() {
 		if err != nil {
 			return VErr(errCode(err))
 		}
-		out := append([]byte{}, s.UpdateData()...)
+		scteKeep("after decoding", s)
+		out := append([]byte{}, keep("bytes returned by UpdateData", s.UpdateData())...)
 		_ = s.String() // C05: a decoded object can be printed without panicking (a panic turns the reply into [2])
 		return VOk(VL(VB(out), scteView(s)))
 	})
@@ -325,9 +326,11 @@ func init() {
 		for _, o := range a[1].L {
 			scteSigOp(s, o)
 		}
+		scteKeep("before UpdateData", s)
 		before := append([]byte{}, s.Data()...)
-		out := append([]byte{}, s.UpdateData()...)
-		view := scteView(s)
+		out := append([]byte{}, keep("bytes returned by UpdateData", s.UpdateData())...)
+		view := twice("SCTE35 getters", func() Val { return scteView(s) })
+		scteKeep("after UpdateData", s)
 		after := append([]byte{}, s.Data()...)
 		var rt Val
 		if s2, err := scte35.NewSCTE35(append([]byte{0}, out...)); err != nil {
